@@ -29,6 +29,10 @@ func (p *Parser) parseMethods(intf *intfEntry) ([]*model.MethodEntry, error) {
 		// An ill-typed interface has lost methods: duplicates, members of an unresolved embedded interface.
 		return nil, err
 	}
+	if named, ok := intf.intf.Type().(*types.Named); ok && 0 < named.TypeParams().Len() {
+		// The functions would refer to type parameters that they do not declare.
+		return nil, logger.Errorf("%v: a converter interface cannot have type parameters", p.fset.Position(intf.intf.Pos()))
+	}
 	iface := intf.intf.Type().Underlying().(*types.Interface)
 	mset := types.NewMethodSet(iface)
 	methods := make([]*model.MethodEntry, 0)
